@@ -43,6 +43,16 @@ DIRECTED = {
     "cal_new_2x2_te10": ["ccreate 0 1", "nalloc 0 0 2 2 2 1", "nsetfv 0 0"] + SOLT2 + ["nsolve 0", "caddcal 0 cal0 0", "caddcal 0 cal0 0", "nalloc 1 0 1 2 2 1", "nsetfv 1 0",
                                                                                         "nsr 1 2 2 1 0 2 1 -1 0", "ndr 1 2 2 0 0 1 2 1 2 1 0 -1 0", "nline 1 2 2 0 0 0 1 1 0 1 2 0 0 1 1 0", "nmm 1 2 2 0 0 2 2 0 0 1 1 0 0 1 1 0", "nmerr 1 1 1", "nfree 1", "cgets 0 0"],
     "cal_new_e12_unknown": ["ccreate 0 1", "cunknown 0 2", "nalloc 0 0 8 2 2 1", "nsetfv 0 0"] + SOLT2 + ["nsr 0 2 2 0 0 3 1 -1 0", "nmerr 0 1 1", "nsolve 0", "caddcal 0 cal1 0", "cpval 0 3 1e9", "cgets 0 0"],
+    # >= 8 distinct parameters in one vnacal_new_t (the parameter hash grows at the 8th), then the same
+    # object keeps being used: adds, solve, add_calibration, free
+    "cal_param_hash_growth": ["ccreate 0 1"] + ["cscalar 0 0.%d 0" % i for i in range(1, 8)] +
+                             ["nalloc 0 0 0 1 1 1", "nsetfv 0 0", "nsr 0 1 1 0 0 2 1 -1 0", "nsr 0 1 1 0 0 1 1 1 0"] +
+                             ["nsr 0 1 1 0 0 %d 1 0.%d 0" % (p, p - 2) for p in range(3, 10)] +
+                             ["nsr 0 1 1 0 0 0 1 0 0", "nsr 0 1 1 0 0 9 1 0.7 0", "nsr 0 1 1 0 0 4 1 0.2 0", "nsolve 0", "caddcal 0 cal0 0", "cgets 0 0", "nfree 0", "cfree 0"],
+    # add_calibration replacing an existing name (solve twice, add twice), then look-ups and free
+    "cal_replace_same_name": ["ccreate 0 1", "nalloc 0 0 0 1 1 2", "nsetfv 0 0"] + SOL1 +
+                             ["nsolve 0", "caddcal 0 cal0 0", "cpset 0 0 k=v", "nsolve 0", "caddcal 0 cal0 0", "cfind 0 cal0", "cgets 0 0", "cpget 0 0 k",
+                              "nsolve 0", "caddcal 0 other 0", "nsolve 0", "caddcal 0 cal0 0", "cgets 0 0", "cgets 0 1", "cfree 0"],
     "cal_two_cals": ["ccreate 0 1", "nalloc 0 0 0 1 1 1", "nsetfv 0 0"] + SOL1 + ["nsolve 0", "caddcal 0 cal0 0", "nalloc 1 0 1 1 1 1", "nsetfv 1 0"] +
                     [s.replace("nsr 0", "nsr 1") for s in SOL1] + ["nsolve 1", "caddcal 0 cal1 1", "cfind 0 cal1", "cdelcal 0 0", "cgets 0 1", "csave 0 1", "cload 1 1 0", "cgets 1 1"],
 }
@@ -203,7 +213,7 @@ def run(ctx):
     exe = ctx.build_harness("mem_harness", san=True, wrap=True)
     fe = FaultEnum(ctx, exe)
     quick = ctx.tier != "thorough"
-    total_budget = 2800 if quick else 20000
+    total_budget = 3600 if quick else 24000
     used = 0
     skipped = []
     hist = []
